@@ -116,6 +116,71 @@ fn judge_at(x: &Vec<u8>, t: &Vec<u8>, st: &mut Stats) -> Verdict {
     Ok(())
 }
 
+/// The beginnings a v1 line can have: every prefix of three valid lines (the keyword alone, part of the protocol, part of a
+/// field, ...).
+fn line_beginnings() -> Vec<Vec<u8>> {
+    let mut out: Vec<Vec<u8>> = Vec::new();
+    for l in [&b"PROXY TCP4 1.2.3.4 5.6.7.8 80 443"[..], b"PROXY TCP6 ::1 2001:db8::2 1 2", b"PROXY UNKNOWN abc"] {
+        for k in 1..=l.len() {
+            if !out.iter().any(|o| o[..] == l[..k]) {
+                out.push(l[..k].to_vec());
+            }
+        }
+    }
+    out
+}
+
+/// A CR-free input that BEGINS with `w`, in which `w` also stands right in front of byte offset `limit` (and, when `at_end`,
+/// at the very end), `total` bytes long: to a parser that cuts at the limit, or looks at the end of what it has, the input
+/// "still ends in an unfinished keyword" although the 107 bytes that decide are long there.
+fn periodic(w: &[u8], limit: usize, total: usize, fill_kind: u8, at_end: bool) -> Vec<u8> {
+    let mut l = w.to_vec();
+    let unit: Vec<u8> = match fill_kind {
+        0 => {
+            let mut u = vec![b' '];
+            u.extend_from_slice(w);
+            u
+        }
+        1 => vec![b'x'],
+        2 => vec![b' '],
+        _ => b" 1.2.3.4".to_vec(),
+    };
+    let room = limit.saturating_sub(w.len() + 1);
+    while l.len() < room {
+        let take = (room - l.len()).min(unit.len());
+        l.extend_from_slice(&unit[..take]);
+    }
+    if l.len() + 1 + w.len() == limit {
+        l.push(b' ');
+        l.extend_from_slice(w);
+    }
+    while l.len() < total {
+        l.extend_from_slice(&unit);
+    }
+    l.truncate(total.max(limit.min(l.len())));
+    if at_end && l.len() > w.len() + 1 {
+        let n = l.len();
+        l[n - w.len() - 1] = b' ';
+        l[n - w.len()..].copy_from_slice(w);
+    }
+    l.retain(|&b| b != b'\r');
+    l
+}
+
+fn periodic_cr_free(t: &mut Tape) -> Vec<u8> {
+    let ws = line_beginnings();
+    // the five beginnings of the keyword itself half of the time
+    let w = if t.coin() { ws[t.below(5) as usize].clone() } else { ws[t.below(ws.len() as u32) as usize].clone() };
+    let limit = *t.pick(&[107usize, 107, 107, 106, 108, 105, 109]);
+    let total = match t.below(4) {
+        0 => limit,
+        1 => limit + t.usize_in(1, 4),
+        2 => *t.pick(&[128usize, 151, 255, 256, 257, 300, 512]),
+        _ => t.usize_in(100, 140),
+    };
+    periodic(&w, limit, total, t.below(4) as u8, t.coin())
+}
+
 fn gen_case(t: &mut Tape) -> Pair {
     let x = match t.weighted(&[4, 4, 3, 3, 2, 2, 2]) {
         6 => {
@@ -184,6 +249,7 @@ fn gen_case(t: &mut Tape) -> Pair {
             });
             l
         }
+        2 if t.chance(1, 4) => periodic_cr_free(t),
         2 => {
             // CR-free inputs around the limit
             let total = t.usize_in(100, 120);
@@ -286,5 +352,32 @@ pub fn run(r: &mut Runner) -> &'static str {
     };
     let space = format!("all sequences of <= {} tokens over a 12-token alphabet, each closed by CRLF, CR X and CR CR", k);
     r.bulk("c18.closed-token-sequences", Some(&space), &work, &judge);
+    // exhaustive: CR-free inputs that begin with every beginning a line can have and show the same text again right in front
+    // of the 107-byte limit / at their end, for every total length around the limit and some far beyond it
+    let work_p = |shard: usize, nshards: usize, st: &mut Stats, stop: &AtomicBool| -> Option<(Pair, Fail)> {
+        let ws = line_beginnings();
+        for (i, w) in ws.iter().enumerate() {
+            if i % nshards != shard {
+                continue;
+            }
+            if stop.load(Ordering::Relaxed) {
+                return None;
+            }
+            for total in (100usize..=132).chain([151, 200, 255, 256, 257, 300, 512, 1024]) {
+                for limit in [107usize, 108, 106] {
+                    for fk in 0..4u8 {
+                        for at_end in [false, true] {
+                            let c = Pair(periodic(w, limit, total, fk, at_end), vec![]);
+                            if let Err(f) = judge(&c, st) {
+                                return Some((c, f));
+                            }
+                        }
+                    }
+                }
+            }
+        }
+        None
+    };
+    r.bulk("c18.periodic-cr-free", Some("every beginning of 3 valid lines (75 texts) repeated in front of byte 106 / 107 / 108 and at the end x 41 total lengths 100..=132, 151..1024 x 4 fillers"), &work_p, &judge);
     "exploration"
 }
